@@ -42,8 +42,15 @@ class ErrorInfoModel:
 class Model:
     def __init__(self, tmpl: dict, plan: list, handler: Handler | None,
                  case_once: bool = True, guard_tags: bool = True,
-                 leaky_scope: bool = False) -> None:
+                 leaky_scope: bool = False,
+                 raw_default_attr: bool = False) -> None:
         self.tree = tmpl["tree"]
+        # tal:attributes yielding ``default`` for an attribute whose static
+        # value contains ${...}: the default value is that interpolation,
+        # evaluated then.  raw_default_attr=True is the variant that emits
+        # the static text as it stands (what the code at hand does).
+        self.raw_default_attr = raw_default_attr
+        self.raw_attr_relevant = False
         # marker variables (tal:define="wK 'lit'", read as ${wK | 'unset'}):
         # a local definition ends with its element - also when the element
         # is left by an exception that an outer tal:on-error then handles.
@@ -501,7 +508,20 @@ class Model:
                     if all(p[0] == "lit" for p in parts) else None
                 if name in dyn:
                     done.add(name)
-                    self.attr(name, self.ev(dyn[name]), static_text)
+                    v = self.ev(dyn[name])
+                    if static_text is None and v is default_marker():
+                        self.raw_attr_relevant = True
+                        if self.raw_default_attr:
+                            raw = "".join(
+                                p[1] if p[0] == "lit" else "${P(%d)}"
+                                % p[1]["id"] for p in parts)
+                            self.out.append(' %s="%s"' % (name, raw))
+                        else:
+                            s_ = self.text_parts(parts, esc_attr)
+                            if s_ is not None:
+                                self.out.append(' %s="%s"' % (name, s_))
+                        continue
+                    self.attr(name, v, static_text)
                 elif static_text is not None:
                     self.out.append(' %s="%s"' % (name, static_text))
                 else:
@@ -575,6 +595,7 @@ class Model:
         res["handled"] = self.handled
         res["guard_relevant"] = self.guard_relevant
         res["scope_relevant"] = self.scope_relevant
+        res["raw_attr_relevant"] = self.raw_attr_relevant
         res["err_records"] = self.err_records
         return res
 
